@@ -478,7 +478,15 @@ func driver(propID, tier string) int {
 	agg.NViol += len(deadlocks)
 	// auxiliary legs a property runs after the sweep (C09: real goroutines under the race detector)
 	if pc, ok := prop.(PostChecker); ok {
-		pv, pcnt := pc.Post(tier, base)
+		pv, pcnt, perr := pc.Post(tier, base)
+		if perr != nil {
+			if len(agg.Violations) == 0 {
+				fmt.Fprintf(os.Stderr, "simcheck: auxiliary leg failed: %v\n", perr)
+				return 2
+			}
+			// the seeded sweep already has violations to report; the leg's trouble is noted, not fatal
+			fmt.Printf("note: auxiliary leg did not complete (%v); reporting the violations of the simulated sweep\n", perr)
+		}
 		agg.Violations = append(agg.Violations, pv...)
 		agg.NViol += len(pv)
 		for k, n := range pcnt {
